@@ -3,18 +3,19 @@ import Model.MatrixArray
 # Tabulated ω: `FromArray`, `FromFile` (pyPRISM/omega/FromArray.py, FromFile.py)
 
 `np.allclose(a, b)` is modelled from NumPy's documentation:
-`|a - b| <= atol + rtol * |b|` element-wise with `rtol = 1e-5`, `atol = 1e-8` (NaN not modelled).
+`|a - b| <= atol + rtol * |b|` element-wise with `rtol = 1e-5`, `atol = 1e-8`; a NaN on either side is never close
+(`equal_nan=False`): the `x == x` test below is false exactly for NaN on `Float` and always true on `ℝ`.
 `np.loadtxt` is outside the model: the model starts from the parsed rows.
 -/
 open Lit
 
-variable {α : Type} [Add α] [Sub α] [Mul α] [Div α] [Neg α] [Lit α] [Inhabited α] [LT α] [DecidableLT α]
+variable {α : Type} [Add α] [Sub α] [Mul α] [Div α] [Neg α] [Lit α] [Inhabited α] [LT α] [DecidableLT α] [BEq α]
 
 def rtolC : α := dec 1 5
 def atolC : α := dec 1 8
 
 /-- one element of `np.isclose` -/
-def iscloseS (a b : α) : Bool := decide (¬ (atolC + rtolC * absS b < absS (a - b)))
+def iscloseS (a b : α) : Bool := decide (¬ (atolC + rtolC * absS b < absS (a - b))) && (absS (a - b) == absS (a - b))
 
 def allclose (a b : Array α) : Bool :=
   a.size == b.size && (List.range a.size).all fun i => iscloseS a[i]! b[i]!
